@@ -562,7 +562,8 @@ class PortNamespace(collections.abc.MutableMapping, Port):
         # Overload mutable attributes of PortNamespace unless overridden by value in namespace_options
         for attr in dir(port_namespace):
             if is_mutable_property(PortNamespace, attr):
-                setattr(self, attr, namespace_options.pop(attr, getattr(port_namespace, attr)))
+                # (a copy, like the ports themselves: e.g. a default mapping must not be shared between the two)
+                setattr(self, attr, namespace_options.pop(attr, copy.deepcopy(getattr(port_namespace, attr))))
 
         if dynamic is not None:
             self.dynamic = dynamic
